@@ -35,7 +35,7 @@ func init() {
 				return 120
 			}
 			if tier == "thorough" {
-				return 3000
+				return 16000
 			}
 			return 160
 		},
@@ -225,6 +225,11 @@ func runStrategyScenario(c *fw.Case, prop string) {
 		out := outs[c.R.Intn(len(outs))]
 		ref := s.ref(out)
 		spec := s.genRequest(out)
+		if !spec.Prod && c.R.Intn(2) == 0 { // development mode: also ask for the initial snapshot of every store
+			for _, m := range ref.Graph.Stores() {
+				spec.Debug = append(spec.Debug, m.Name)
+			}
+		}
 		before := s.cacheNames()
 		sj, _ := json.Marshal(spec)
 		c.Logf("modules:\n  %s\nrequest %d: %s\ncache before: %v", strings.Join(s.pkg.Describe(), "\n  "), i, sj, before)
@@ -263,6 +268,9 @@ func runStrategyScenario(c *fw.Case, prop string) {
 		s.report(prop, rf, extra)
 		c.Count("store_reads_compared", int64(compared))
 		c.Count("module_executions_observed", int64(execs))
+		sf, sc := sim.CheckInitialSnapshots(res, ref, s.pkg)
+		s.report(prop, sf, extra)
+		c.Count("initial_snapshots_compared", int64(sc))
 		hf, hc := sim.CheckHandoffStores(res, ref, s.pkg)
 		s.report(prop, hf, extra)
 		c.Count("handoff_stores_compared", int64(hc))
